@@ -1,8 +1,9 @@
 /-
   C17 — summary counts, run statistics and the JUnit report all tell the same story.
-  Property theorems only (counter part; the JUnit aggregation model is in Model/Junit).
+  Property theorems only: the counters (Model/Dispatcher) and the JUnit aggregation (Model/Junit).
 -/
 import NextestModel.Lemmas.Dispatcher
+import NextestModel.Lemmas.Junit
 namespace NextestModel.C17
 open NextestModel.Dispatcher
 
@@ -79,5 +80,387 @@ theorem finished_event_carries_stats (s : DState) (i : Nat) (r : Res) (slow : Bo
     · simp only [Except.ok.injEq, Prod.mk.injEq] at h
       obtain ⟨rfl, rfl, rfl, rfl⟩ := h
       simp [hp, DState.afterFinish]
+
+/-! ## The JUnit report -/
+
+section junit
+open NextestModel.Junit
+
+/-- the name under which a `TestFinished` event of binary `b` appears -/
+def finishedName (b : String) : Ev → Option String
+  | .testFinished b' n _ _ _ => if b' = b then some n else none
+  | _ => none
+
+private theorem filterMap_congr' {α β} (l : List α) (f g : α → Option β) (h : ∀ x ∈ l, f x = g x) :
+    l.filterMap f = l.filterMap g := by
+  induction l with
+  | nil => rfl
+  | cons a l ih => simp [List.filterMap_cons, h a (by simp), ih (fun x hx => h x (by simp [hx]))]
+
+private theorem dropLast_append_last {α} (l : List α) (a : α) (h : l.getLast? = some a) : l.dropLast ++ [a] = l := by
+  obtain ⟨ys, rfl⟩ := List.getLast?_eq_some_iff.mp h
+  simp
+
+private theorem caseOfTest_name {n as s f c} (h : caseOfTest n as s f = some c) : c.name = n := by
+  unfold caseOfTest at h
+  split at h
+  · cases h
+  · split at h
+    · split at h
+      · split at h
+        · simp only [Option.some.injEq] at h; subst h; rfl
+        · cases h
+      · simp only [Option.some.injEq] at h; subst h; rfl
+    · split at h
+      · cases h
+      · split at h
+        · simp only [Option.some.injEq] at h; subst h; rfl
+        · cases h
+
+private theorem no_panic_of_some (evs : List Ev) (S R : List Suite) (h : writeEvents S evs = some R) :
+    ∀ e ∈ evs, contribution e ≠ none := by
+  induction evs generalizing S with
+  | nil => intro e he; cases he
+  | cons e es ih =>
+    intro x hx
+    simp only [writeEvents] at h
+    cases hc : contribution e with
+    | none => simp [hc] at h
+    | some o =>
+      rcases List.mem_cons.mp hx with rfl | hx
+      · simp [hc]
+      · cases o with
+        | none => simp only [hc] at h; exact ih S h x hx
+        | some kc => simp only [hc] at h; exact ih _ h x hx
+
+/-- **exactly one test case per finished test, in the suite named after its binary, in the order the tests finished**
+    — for every event list (any mix of binaries, scripts, results, retries, other events); together with
+    `writeEvents_nodup` (one suite per binary id / script id) -/
+theorem junit_one_case_per_finished (evs : List Ev) (R : List Suite) (h : writeEvents [] evs = some R) (b : String) :
+    (casesFor (.binary b) R).map (·.name) = evs.filterMap (finishedName b) := by
+  rw [writeEvents_casesFor (.binary b) evs [] R h]
+  simp only [casesFor, List.nil_append, List.map_filterMap]
+  apply filterMap_congr'
+  intro e he
+  have hne := no_panic_of_some evs [] R h e he
+  cases e with
+  | testFinished b' n as s f =>
+    simp only [contribTo, contribution, finishedName]
+    cases hc : caseOfTest n as s f with
+    | none => simp [contribution, hc] at hne
+    | some c =>
+      simp only [Option.map_some, Key.binary.injEq]
+      by_cases hb : b' = b
+      · simp [hb, caseOfTest_name hc]
+      · simp [hb]
+  | scriptFinished id r s f =>
+    simp only [contribTo, contribution, finishedName]
+    cases hc : caseOfScript id r s f <;> simp
+  | other => simp [contribTo, contribution, finishedName]
+
+/-- one suite per key: a second event for the same binary (or script) never opens a second suite -/
+theorem junit_suites_distinct (evs : List Ev) (R : List Suite) (h : writeEvents [] evs = some R) :
+    (R.map (·.key)).Nodup :=
+  writeEvents_nodup evs [] R (by simp) h
+
+/-- the number of test cases in the whole report = the number of finished tests and finished setup scripts -/
+theorem junit_total_cases (evs : List Ev) (R : List Suite) (h : writeEvents [] evs = some R) :
+    (allCases R).length = (evs.filter fun e => match e with | .other => false | _ => true).length := by
+  have := writeEvents_countP (fun _ => true) evs [] R h
+  simp only [List.countP_true, allCases, List.flatMap_nil, List.length_nil, Nat.zero_add] at this
+  rw [show (allCases R).length = (List.flatMap (fun x => x.cases) R).length from rfl, this]
+  have hne := no_panic_of_some evs [] R h
+  clear h this
+  induction evs with
+  | nil => rfl
+  | cons e es ih =>
+    have hrest := ih (fun x hx => hne x (by simp [hx]))
+    have he := hne e (by simp)
+    cases e with
+    | testFinished b' n as s f =>
+      cases hc : caseOfTest n as s f with
+      | none => simp [contribution, hc] at he
+      | some c => simp [List.filterMap_cons, contrib, contribution, hc, hrest]
+    | scriptFinished id r s f =>
+      cases hc : caseOfScript id r s f with
+      | none => simp [contribution, hc] at he
+      | some c => simp [List.filterMap_cons, contrib, contribution, hc, hrest]
+    | other => simp [List.filterMap_cons, contrib, contribution, hrest]
+
+/-- **a test case carries a `failure`/`error` element iff the test's final attempt did not succeed**
+    (given what the attempt loop guarantees: every attempt before the last one failed) -/
+theorem junit_status_iff (n : String) (as : List Res) (s f : Bool) (c : Case) (hwf : WFAttempts as)
+    (h : caseOfTest n as s f = some c) (last : Res) (hl : as.getLast? = some last) :
+    c.status.isSome = !last.isSuccess := by
+  unfold caseOfTest at h
+  rw [hl] at h
+  simp only at h
+  split at h
+  · rename_i hs
+    split at h
+    · split at h
+      · simp only [Option.some.injEq] at h; subst h; simp [hs]
+      · cases h
+    · simp only [Option.some.injEq] at h; subst h; simp [hs]
+  · rename_i hs
+    split at h
+    · cases h
+    · split at h
+      · simp only [Option.some.injEq] at h; subst h; simp at hs; simp [hs]
+      · cases h
+
+/-- **reruns**: a test that finally passed after `k` failed attempts has `k` rerun elements (serialised `flakyFailure` /
+    `flakyError`, because the case is a success) carrying attempts `0 … k-1`, and the case itself carries the last attempt;
+    a test that failed `k+1` times has `k` rerun elements (`rerunFailure` / `rerunError`) carrying attempts `1 … k`, and the
+    case itself carries the first attempt.  Every attempt's output therefore has exactly one place in the report. -/
+theorem junit_reruns (n : String) (as : List Res) (s f : Bool) (c : Case) (h : caseOfTest n as s f = some c) :
+    c.reruns.length = as.length - 1 ∧
+    (c.status = none → c.main = as.length - 1 ∧ c.reruns.map (·.attempt) = List.range' 0 (as.length - 1)) ∧
+    (c.status ≠ none → c.main = 0 ∧ c.reruns.map (·.attempt) = List.range' 1 (as.length - 1)) := by
+  cases hl : as.getLast? with
+  | none => simp [caseOfTest, hl] at h
+  | some last =>
+    unfold caseOfTest at h
+    rw [hl] at h
+    simp only at h
+    split at h
+    · split at h
+      · split at h
+        · rename_i rr hrr
+          simp only [Option.some.injEq] at h; subst h
+          obtain ⟨h1, h2, _, _⟩ := rerunsFrom_spec f 0 as.dropLast rr hrr
+          simp only [List.length_dropLast] at h1 h2
+          exact ⟨h1, fun _ => ⟨rfl, h2⟩, fun hn => absurd rfl hn⟩
+        · cases h
+      · rename_i hlen
+        simp only [Option.some.injEq] at h; subst h
+        have : as.length - 1 = 0 := by omega
+        simp [this]
+    · split at h
+      · cases h
+      · rename_i first rest
+        split at h
+        · rename_i st rr hst hrr
+          simp only [Option.some.injEq] at h; subst h
+          obtain ⟨h1, h2, _, _⟩ := rerunsFrom_spec f 1 rest rr hrr
+          simp only [List.length_cons, Nat.add_sub_cancel]
+          refine ⟨h1, ?_, fun _ => ⟨trivial, h2⟩⟩
+          intro hn; cases hn
+        · cases h
+
+/-- **stored output exactly when the settings say so**: a failed attempt recorded as a rerun has its output stored iff
+    store-failure-output; the test case itself iff store-success-output when the test passed (first time or finally), iff
+    store-failure-output when it failed -/
+theorem junit_store_rule (n : String) (as : List Res) (s f : Bool) (c : Case) (hwf : WFAttempts as)
+    (h : caseOfTest n as s f = some c) (last : Res) (hl : as.getLast? = some last) :
+    (∀ x ∈ c.reruns, x.stored = f) ∧ c.stored = (if last.isSuccess then s else f) := by
+  unfold caseOfTest at h
+  rw [hl] at h
+  simp only at h
+  split at h
+  · rename_i hs
+    split at h
+    · split at h
+      · rename_i rr hrr
+        simp only [Option.some.injEq] at h; subst h
+        obtain ⟨_, _, h3, _⟩ := rerunsFrom_spec f 0 as.dropLast rr hrr
+        exact ⟨h3, by simp [storeRule, hs]⟩
+      · cases h
+    · simp only [Option.some.injEq] at h; subst h
+      exact ⟨by simp, by simp [storeRule, hs]⟩
+  · rename_i hs
+    split at h
+    · cases h
+    · rename_i first rest
+      split at h
+      · rename_i st rr hst hrr
+        simp only [Option.some.injEq] at h; subst h
+        obtain ⟨_, _, h3, _⟩ := rerunsFrom_spec f 1 rest rr hrr
+        refine ⟨h3, ?_⟩
+        -- the first attempt of a failed test did not succeed: it is the last one, or an earlier (failed) one
+        have hfirst : first.isSuccess = false := by
+          cases rest with
+          | nil => simp at hl; subst hl; simpa using hs
+          | cons r rs => exact hwf.2 first (by simp [List.dropLast])
+        simp at hs
+        simp [storeRule, hfirst, hs]
+      · cases h
+
+/-- the aggregator never hits its `unreachable!` on the histories the executor produces -/
+theorem junit_no_panic (evs : List Ev) (hwf : ∀ e ∈ evs, WFEv e) (S : List Suite) : ∃ R, writeEvents S evs = some R := by
+  induction evs generalizing S with
+  | nil => exact ⟨S, rfl⟩
+  | cons e es ih =>
+    have hrest : ∀ x ∈ es, WFEv x := fun x hx => hwf x (by simp [hx])
+    have he := hwf e (by simp)
+    cases e with
+    | other => simpa [writeEvents, contribution] using ih hrest S
+    | scriptFinished id r s f =>
+      have : ∃ c, caseOfScript id r s f = some c := by
+        unfold caseOfScript
+        cases r <;> simp [Res.isSuccess, kindAndType]
+        rename_i sg lk; cases sg <;> cases lk <;> simp [kindAndType]
+      obtain ⟨c, hc⟩ := this
+      simpa [writeEvents, contribution, hc] using ih hrest _
+    | testFinished b n as s f =>
+      have : ∃ c, caseOfTest n as s f = some c := by
+        obtain ⟨hne, hprior⟩ := he
+        unfold caseOfTest
+        cases hl : as.getLast? with
+        | none => simp [List.getLast?_eq_none_iff] at hl; exact absurd hl hne
+        | some last =>
+          simp only
+          split
+          · split
+            · obtain ⟨rr, hrr⟩ := rerunsFrom_some f 0 as.dropLast hprior
+              simp [hrr]
+            · simp
+          · rename_i hs
+            cases as with
+            | nil => exact absurd rfl hne
+            | cons first rest =>
+              simp only
+              have hfirst : first.isSuccess = false := by
+                cases rest with
+                | nil => simp at hl; subst hl; simpa using hs
+                | cons r rs => exact hprior first (by simp [List.dropLast])
+              have hrestf : ∀ r ∈ rest, r.isSuccess = false := by
+                intro r hr
+                by_cases hlast : r = last ∧ True
+                · rw [hlast.1]; simpa using hs
+                · -- r is in dropLast or is the last
+                  have hmem : r ∈ (first :: rest).dropLast ∨ r = last := by
+                    have hsplit := dropLast_append_last (first :: rest) last hl
+                    have : r ∈ (first :: rest).dropLast ++ [last] := by rw [hsplit]; simp [hr]
+                    rcases List.mem_append.mp this with h | h
+                    · exact Or.inl h
+                    · exact Or.inr (by simpa using h)
+                  rcases hmem with h | h
+                  · exact hprior r h
+                  · rw [h]; simpa using hs
+              obtain ⟨rr, hrr⟩ := rerunsFrom_some f 1 rest hrestf
+              have hk : ∃ st, kindAndType "test" first = some st := by
+                cases first <;> simp [Res.isSuccess] at hfirst <;> simp [kindAndType]
+                rename_i sg lk; cases sg <;> cases lk <;> simp [kindAndType]
+              obtain ⟨st, hst⟩ := hk
+              simp [hst, hrr]
+      obtain ⟨c, hc⟩ := this
+      simpa [writeEvents, contribution, hc] using ih hrest _
+
+def isNonSuccess (c : Case) : Bool := c.status.isSome
+def isFlaky (c : Case) : Bool := c.status.isNone && !c.reruns.isEmpty
+
+private theorem onTest_effect (s : Stats) (last : Res) (n : Nat) :
+    (s.onTestFinished last false n).finishedCount = s.finishedCount + 1 ∧
+    (s.onTestFinished last false n).failedCount = s.failedCount + (if last.isSuccess then 0 else 1) ∧
+    (s.onTestFinished last false n).flaky = s.flaky + (if last.isSuccess && decide (n > 1) then 1 else 0) ∧
+    (s.onTestFinished last false n).setupScriptsFinishedCount = s.setupScriptsFinishedCount ∧
+    (s.onTestFinished last false n).failedSetupScriptCount = s.failedSetupScriptCount := by
+  cases last <;> simp [Stats.onTestFinished, Stats.failedCount, Stats.failedSetupScriptCount, Res.isSuccess] <;>
+    (try split) <;> (try simp_all) <;> (try omega)
+
+private theorem onScript_effect (s : Stats) (r : Res) :
+    (s.onScriptFinished r).finishedCount = s.finishedCount ∧
+    (s.onScriptFinished r).failedCount = s.failedCount ∧
+    (s.onScriptFinished r).flaky = s.flaky ∧
+    (s.onScriptFinished r).setupScriptsFinishedCount = s.setupScriptsFinishedCount + 1 ∧
+    (s.onScriptFinished r).failedSetupScriptCount = s.failedSetupScriptCount + (if r.isSuccess then 0 else 1) := by
+  cases r <;> simp [Stats.onScriptFinished, Stats.failedCount, Stats.failedSetupScriptCount, Res.isSuccess] <;> omega
+
+private theorem views_gen (evs : List Ev) (hwf : ∀ e ∈ evs, WFEv e) (hne : ∀ e ∈ evs, contribution e ≠ none) (s : Stats) :
+    (evs.filterMap contrib).length + s.finishedCount + s.setupScriptsFinishedCount =
+      (statsOf s evs).finishedCount + (statsOf s evs).setupScriptsFinishedCount ∧
+    (evs.filterMap contrib).countP isNonSuccess + s.failedCount + s.failedSetupScriptCount =
+      (statsOf s evs).failedCount + (statsOf s evs).failedSetupScriptCount ∧
+    (evs.filterMap contrib).countP isFlaky + s.flaky = (statsOf s evs).flaky := by
+  induction evs generalizing s with
+  | nil => simp [statsOf]
+  | cons e es ih =>
+    have hwf' : ∀ x ∈ es, WFEv x := fun x hx => hwf x (by simp [hx])
+    have hne' : ∀ x ∈ es, contribution x ≠ none := fun x hx => hne x (by simp [hx])
+    have he := hne e (by simp)
+    have hw := hwf e (by simp)
+    cases e with
+    | other =>
+      simpa [List.filterMap_cons, contrib, contribution, statsOf] using ih hwf' hne' s
+    | scriptFinished id r sS sF =>
+      cases hc : caseOfScript id r sS sF with
+      | none => simp [contribution, hc] at he
+      | some c =>
+        obtain ⟨e1, e2, e3, e4, e5⟩ := onScript_effect s r
+        obtain ⟨i1, i2, i3⟩ := ih hwf' hne' (s.onScriptFinished r)
+        have hst : isNonSuccess c = !r.isSuccess ∧ isFlaky c = false := by
+          unfold caseOfScript at hc
+          split at hc
+          · rename_i hs; simp only [Option.some.injEq] at hc; subst hc; simp [isNonSuccess, isFlaky, hs]
+          · rename_i hs
+            split at hc
+            · simp only [Option.some.injEq] at hc; subst hc; simp at hs; simp [isNonSuccess, isFlaky, hs]
+            · cases hc
+        simp only [List.filterMap_cons, contrib, contribution, hc, Option.map_some, statsOf, List.length_cons, List.countP_cons, hst]
+        rw [e1, e2, e3, e4, e5] at *
+        refine ⟨by omega, ?_, by simpa using i3⟩
+        cases hr : r.isSuccess <;> simp [hr] at i2 ⊢ <;> omega
+    | testFinished b n as sS sF =>
+      cases hc : caseOfTest n as sS sF with
+      | none => simp [contribution, hc] at he
+      | some c =>
+        have hnonempty := hw.1
+        cases hl : as.getLast? with
+        | none => simp [List.getLast?_eq_none_iff] at hl; exact absurd hl hnonempty
+        | some last =>
+          obtain ⟨e1, e2, e3, e4, e5⟩ := onTest_effect s last as.length
+          obtain ⟨i1, i2, i3⟩ := ih hwf' hne' (s.onTestFinished last false as.length)
+          have hs1 := junit_status_iff n as sS sF c hw hc last hl
+          obtain ⟨hr1, _, _⟩ := junit_reruns n as sS sF c hc
+          have hfl : isFlaky c = (last.isSuccess && decide (as.length > 1)) := by
+            unfold isFlaky
+            have hnone : c.status.isNone = last.isSuccess := by
+              cases hst : c.status <;> simp [hst] at hs1 ⊢ <;> simp [hs1]
+            rw [hnone]
+            cases hsucc : last.isSuccess <;> simp
+            cases hrr : c.reruns with
+            | nil => simp [hrr] at hr1; simp; omega
+            | cons x xs => simp [hrr] at hr1; simp; omega
+          simp only [List.filterMap_cons, contrib, contribution, hc, Option.map_some, statsOf, hl, List.length_cons, List.countP_cons,
+            show isNonSuccess c = !last.isSuccess from hs1, hfl]
+          rw [e1, e2, e3, e4, e5] at *
+          refine ⟨by omega, ?_, ?_⟩
+          · cases hr : last.isSuccess <;> simp [hr] at i2 ⊢ <;> omega
+          · cases hr : (last.isSuccess && decide (as.length > 1)) <;> simp [hr] at i3 ⊢ <;> omega
+
+/-- **the three views agree**: on every history the executor can produce, the JUnit report, folded from the same events as the
+    run statistics (which the summary line prints), contains as many test cases as tests and setup scripts finished, as many
+    `failure`/`error` cases as the statistics count failed (failed + exec-failed + timed-out, tests and scripts), and as many
+    successful cases with `flakyFailure`/`flakyError` children as the statistics count flaky -/
+theorem three_views_agree (evs : List Ev) (hwf : ∀ e ∈ evs, WFEv e) (R : List Suite) (h : writeEvents [] evs = some R) :
+    let st := statsOf {} evs
+    (allCases R).length = st.finishedCount + st.setupScriptsFinishedCount ∧
+    (allCases R).countP isNonSuccess = st.failedCount + st.failedSetupScriptCount ∧
+    (allCases R).countP isFlaky = st.flaky := by
+  have hne := no_panic_of_some evs [] R h
+  obtain ⟨v1, v2, v3⟩ := views_gen evs hwf hne {}
+  have c1 := writeEvents_countP (fun _ => true) evs [] R h
+  have c2 := writeEvents_countP isNonSuccess evs [] R h
+  have c3 := writeEvents_countP isFlaky evs [] R h
+  simp only [List.countP_true, allCases, List.flatMap_nil, List.length_nil, List.countP_nil, Nat.zero_add] at c1 c2 c3
+  simp only [Stats.failedCount, Stats.failedSetupScriptCount] at v1 v2 v3 ⊢
+  refine ⟨?_, ?_, ?_⟩
+  · show (List.flatMap (fun x => x.cases) R).length = _; rw [c1]; simpa using v1
+  · show (List.flatMap (fun x => x.cases) R).countP isNonSuccess = _; rw [c2]; simpa using v2
+  · show (List.flatMap (fun x => x.cases) R).countP isFlaky = _; rw [c3]; simpa using v3
+
+-- non-vacuity: two binaries, a flaky test, a failing test with a retry, a script; the report, its counters and the statistics
+example : writeEvents [] [.scriptFinished "db" .pass true true, .testFinished "a::t" "flaky" [.fail none false, .pass] false true,
+      .other, .testFinished "b::u" "bad" [.timeout, .fail (some 9) false] false true, .testFinished "a::t" "ok" [.leak] false true] =
+    some [{ key := .script "db", cases := [{ name := "db", status := none, main := 0, stored := true, reruns := [] }] },
+          { key := .binary "a::t", cases := [
+              { name := "flaky", status := none, main := 1, stored := false, reruns := [{ kind := .failure, ty := "test failure", attempt := 0, stored := true }] },
+              { name := "ok", status := none, main := 0, stored := false, reruns := [] }] },
+          { key := .binary "b::u", cases := [
+              { name := "bad", status := some (.failure, "test timeout"), main := 0, stored := true,
+                reruns := [{ kind := .failure, ty := "test abort", attempt := 1, stored := true }] }] }] := by decide
+
+end junit
 
 end NextestModel.C17
